@@ -65,6 +65,9 @@ package service
 //@   ensures[C19] s.engine.puts == old(s.engine.puts) && s.engine.dels == old(s.engine.dels)
 //@   ensures[C19,C17] s.scanTx != nil ==> s.scanTx.rollbacks == 1 && s.scanTx.commits == 0 && s.scanTx.puts == 0 && s.scanTx.dels == 0
 //@   ensures[C19,C05] req.Limit > 0 ==> stream.sent - old(stream.sent) <= req.Limit
+//@   ensures[C19,C05] s.scanTx != nil && (len(req.Prefix) > 0 || len(req.Suffix) > 0) ==> s.scanTx.fullIters == 1 && s.scanTx.rangeIters == 0
+//@   ensures[C19,C05] s.scanTx != nil && len(req.Prefix) == 0 && len(req.Suffix) == 0 && (len(req.StartKey) > 0 || len(req.EndKey) > 0) ==> s.scanTx.fullIters == 0 && s.scanTx.rangeIters == 1 && s.scanTx.lastStart == req.StartKey && s.scanTx.lastEnd == req.EndKey
+//@   ensures[C19,C05] s.scanTx != nil && len(req.Prefix) == 0 && len(req.Suffix) == 0 && len(req.StartKey) == 0 && len(req.EndKey) == 0 ==> s.scanTx.fullIters == 1 && s.scanTx.rangeIters == 0
 //@   ghost after call Engine.BeginTransaction#1: s.scanTx = result0
 //@   ghost after call ServerStreamingServer.Send#1: s.emitted = upd(s.emitted, iter.pos, true)
 //@   check[C05,C19] before call ServerStreamingServer.Send#1: IterValid(iter) && !iter.tomb[iter.pos]
@@ -75,8 +78,18 @@ package service
 //@   invariant[C19] s.scanTx == tx && tx != nil && tx.rollbacks == 0 && tx.commits == 0 && tx.puts == 0 && tx.dels == 0
 //@   invariant[C19] s.engine.begins == old(s.engine.begins) + 1 && s.engine.lastBeginRO && s.engine.puts == old(s.engine.puts) && s.engine.dels == old(s.engine.dels)
 //@   invariant[C19] (req.Limit > 0 ==> limit == req.Limit) && (req.Limit <= 0 ==> limit == 0)
+//@ ghost field (*KevoServiceServer) txScanTx transaction.Transaction
+//@ ghost field (*KevoServiceServer) txScanFull0 int
+//@ ghost field (*KevoServiceServer) txScanRange0 int
 //@ func (*KevoServiceServer).TxScan
 //@   requires Limits(s) && req != nil && stream != nil && (forall i int :: !s.emitted[i])
+//@   ensures[C19,C05] s.txScanTx != nil && (len(req.Prefix) > 0 || len(req.Suffix) > 0) ==> s.txScanTx.fullIters == s.txScanFull0 + 1 && s.txScanTx.rangeIters == s.txScanRange0
+//@   ensures[C19,C05] s.txScanTx != nil && len(req.Prefix) == 0 && len(req.Suffix) == 0 && (len(req.StartKey) > 0 || len(req.EndKey) > 0) ==> s.txScanTx.fullIters == s.txScanFull0 && s.txScanTx.rangeIters == s.txScanRange0 + 1 && s.txScanTx.lastStart == req.StartKey && s.txScanTx.lastEnd == req.EndKey
+//@   ensures[C19,C05] s.txScanTx != nil && len(req.Prefix) == 0 && len(req.Suffix) == 0 && len(req.StartKey) == 0 && len(req.EndKey) == 0 ==> s.txScanTx.fullIters == s.txScanFull0 + 1 && s.txScanTx.rangeIters == s.txScanRange0
+//@   ghost entry: s.txScanTx = nil
+//@   ghost after call Registry.Get#1: s.txScanTx = result0
+//@   ghost after call Registry.Get#1: s.txScanFull0 = result0.fullIters
+//@   ghost after call Registry.Get#1: s.txScanRange0 = result0.rangeIters
 //@   ensures[C19] s.engine.begins == old(s.engine.begins) && s.engine.puts == old(s.engine.puts) && s.engine.dels == old(s.engine.dels)
 //@   ensures[C19,C17] s.txRegistry.removes == old(s.txRegistry.removes)
 //@   ensures[C19,C05] req.Limit > 0 ==> stream.sent - old(stream.sent) <= req.Limit
